@@ -21,7 +21,6 @@ RULE = ("world programs over Vector(tuple) on a few caller tuples (the only real
 ASSUMPTIONS = [
     "two vectors share storage only when built over the same caller-supplied tuple object and until one of them is written; every other vector (fresh, copy, slice, result, table column, empty) has private storage",
     "an object dropped into an uncollected reference cycle still counts as live",
-    "v << empty (or empty << v) really shares v's tuple with the result (CPython returns the same object for t + ()); the model treats that as sharing",
     "whether a freed id() is reused depends on the allocator: the sweep makes a stale registration fire with high probability, it cannot force it; replay runs the saved program 30 times",
 ]
 
@@ -54,16 +53,6 @@ class Hooks(W.Hooks):
             tok = si.results[0].token
             if len([e for e in world.live("vec") if e.token == tok]) >= 2:
                 self.shared_pairs += 1
-        if si.op == "lshift" and si.results and si.results[0].typ == "vec" and len(si.operands) == 2:
-            # CPython returns the very same tuple for t + () and () + t: concatenating with an empty vector
-            # really shares the non-empty operand's storage with the result
-            a, b = si.operands
-            src = a if (len(b.obj) == 0 and len(a.obj) > 0) else (b if (len(a.obj) == 0 and len(b.obj) > 0) else None)
-            if src is not None and src.typ == "vec":
-                if src.token is None:
-                    src.token = world.new_token()
-                si.results[0].token = src.token
-                ctx.label("real_sharing_through_empty_concat")
         if si.op in ("table_dict", "table_vecs", "vec_of_vecs", "rshift", "attr_assign", "select", "slice", "mask", "join", "sort"):
             self.table_ops += 1
         if si.op in ("drop", "drop_cycle"):
